@@ -92,9 +92,10 @@ func GhostKeys() string {
 	return "ok"
 }
 
-// WrongKeyHistory: sealing a token with a key that is not its issuer's is refused — before the token was ever sealed, after it
-// was sealed with the right key, and again after that, by every sealing entry point, for constructed and decoded delegations
-// and invocations: what a read-only operation answers does not depend on what was done with the token before.
+// WrongKeyHistory: what sealing a token with a key that is not its issuer's answers (today: a refusal) is the same before the
+// token was ever sealed, after it was sealed with the right key, and again after that, by every sealing entry point, for
+// constructed and decoded delegations and invocations: what a read-only operation answers does not depend on what was done with
+// the token before.
 func WrongKeyHistory() string {
 	f, err := New([]string{"a", "b"}, []string{"m"}, false)
 	if err != nil {
@@ -129,11 +130,17 @@ func WrongKeyHistory() string {
 			}},
 		}
 		for _, c := range cases {
+			// what the call answers on a token that was never sealed is the reference (C20 is about the answer not depending on the
+			// token's history, not about what the answer is)
+			alone := map[string]bool{}
 			for round := 0; round < 3; round++ {
 				for _, s := range c.sealers {
-					if s.run(wrong) == nil {
-						return fmt.Sprintf("%s.%s with a key that is not the issuer's succeeds (round %d: %s)", c.what, s.name, round,
-							map[int]string{0: "never sealed before", 1: "after it was sealed with the right key", 2: "after several sealings"}[round])
+					refused := s.run(wrong) != nil
+					if round == 0 {
+						alone[s.name] = refused
+					} else if refused != alone[s.name] {
+						return fmt.Sprintf("%s.%s with a key that is not the issuer's: refused=%v on a token never sealed before, refused=%v %s", c.what, s.name, alone[s.name], refused,
+							map[int]string{1: "after it was sealed with the right key", 2: "after several sealings"}[round])
 					}
 				}
 				for _, s := range c.sealers {
